@@ -1,4 +1,5 @@
 import AggkitModel.Proofs.Aggsender
+import AggkitModel.Generated.CertFacts
 /-
 C02 — bridge exits settle exactly once through a gap-free certificate chain.
 Property theorems only (the invariant and its induction over histories are in Proofs/Aggsender.lean).
@@ -28,13 +29,12 @@ def C02_Statement (admissible : Cfg → Prop) : Prop :=
   ∀ (size : Params → Nat) (cfg : Cfg) (ops : List Op), admissible cfg → opsOK size { cfg := cfg } ops = true →
     ChainOK (run size { cfg := cfg } ops)
 
-/-- **C02, proved for Agglayers whose certificate headers carry the previous local exit root** (`omitPrev = false`;
-    every header of the current Agglayer does). With `omitPrev = true` a record rebuilt from a header has no previous
-    exit root and the node falls back to the record one height below; that path is modelled and covered by the
-    correspondence check and the monitors, but is not part of this induction. -/
-theorem C02_chain_partial : C02_Statement (fun cfg => cfg.omitPrev = false) := by
-  intro size cfg ops hcfg hops
-  have hi := run_inv size ops { cfg := cfg } (init_inv cfg hcfg) hops
+/-- **C02**, for every configuration — including Agglayers whose certificate headers carry no previous local exit root
+    (`omitPrev`): a record rebuilt from such a header has none, and the node then falls back to the settled record one
+    height below, which by `settled_unique` is the last settled certificate. -/
+theorem C02_chain : C02_Statement (fun _ => True) := by
+  intro size cfg ops _ hops
+  have hi := run_inv size ops { cfg := cfg } (init_inv cfg) hops
   generalize run size { cfg := cfg } ops = s at hi
   exact ⟨hi.closedPrefix, hi.chain, fun c hc => ⟨(hi.content c hc).1, (hi.content c hc).2.1, (hi.content c hc).2.2.1⟩,
     hi.l2sorted, fun c hc => ⟨(hi.counts c hc).1, (hi.counts c hc).2⟩, prefix_ids s.l2 hi.l2sorted hi.deposits⟩
@@ -177,5 +177,23 @@ example : opsOK sizeExact {} demoOps = true := by decide
 example : ((run sizeExact {} demoOps).agg.map (fun c => [c.id, c.height, c.from_, c.to_, c.prev, c.new])) =
     [[1, 0, 1, 1, 0, 2], [2, 0, 1, 2, 0, 3], [3, 1, 3, 4, 3, 3]] ∧
     (run sizeExact {} demoOps).agg.map (·.status) = [St.inError, St.settled, St.settled] := by decide
+
+
+/-! ### the code points this model rests on (regenerated from /repo on every run by tools/goextract) -/
+
+/-- the send loop polls the pending certificates before it may send, in both arms; `sendCertificate` builds, then submits,
+    then records; what it records comes from the submitted certificate and its build parameters; the open statuses are
+    Pending, Proven, Candidate -/
+theorem C02_code_facts :
+    Gen.CertFacts.statusOrder = ["Pending", "Proven", "Candidate", "InError", "Settled"] ∧
+    (Gen.CertFacts.nonSettledStatuses.length = 3 ∧ "Pending" ∈ Gen.CertFacts.nonSettledStatuses ∧
+      "Proven" ∈ Gen.CertFacts.nonSettledStatuses ∧ "Candidate" ∈ Gen.CertFacts.nonSettledStatuses) ∧
+    Gen.CertFacts.closedStatuses.length = 2 ∧
+    Gen.CertFacts.loopSteps = ["CheckPendingCertificatesStatus", "sendCertificate", "CheckPendingCertificatesStatus", "sendCertificate"] ∧
+    Gen.CertFacts.sendSteps = ["GetCertificateBuildParams", "BuildCertificate", "SendCertificate", "saveNonAcceptedCert",
+      "saveCertificateToStorage"] ∧
+    (∀ f ∈ ["Height=certificate.Height", "CertificateID=certificateHash", "NewLocalExitRoot=certificate.NewLocalExitRoot",
+        "PreviousLocalExitRoot=&prevLER", "FromBlock=certificateParams.FromBlock", "ToBlock=certificateParams.ToBlock",
+        "RetryCount=certificateParams.RetryCount"], f ∈ Gen.CertFacts.storedHeaderFields) := by decide
 
 end Aggkit.Aggsender
